@@ -1,5 +1,6 @@
 mod l1;
 mod l2;
+mod l3;
 mod util;
 
 fn main() {
@@ -12,10 +13,20 @@ fn main() {
             for line in stdin.lock().lines() {
                 let line = line.unwrap();
                 let mut it = line.split(' ');
-                match it.next() {
+                // a panic that escapes a case (e.g. a debug assertion inside a handler callback) ends that case only
+                let kind = it.next().map(|s| s.to_string());
+                let r = std::panic::catch_unwind(std::panic::AssertUnwindSafe(|| match kind.as_deref() {
                     Some("L1") => l1::run_case(&line),
                     Some("L2") => l2::run_case(&line),
+                    Some("L3") => l3::run_case(&line),
+                    Some("TD") => l3::run_td_case(&line),
                     _ => {}
+                }));
+                if let Err(p) = r {
+                    let msg = p.downcast_ref::<String>().cloned().or_else(|| p.downcast_ref::<&str>().map(|s| s.to_string())).unwrap_or_default();
+                    println!("R 999 panic:impl {}", msg.replace('\n', " "));
+                    println!("X c13-bad the implementation panicked: {}", msg.replace('\n', " "));
+                    println!(".");
                 }
             }
         }
